@@ -9,6 +9,8 @@ From Coq Require Import List String Ascii NArith Bool Arith Lia.
 From Coq Require Import Strings.Byte.
 From YV Require Import Show Scanner Parser ParseRun Bytecode Verifier VerifierProofs Lines LinesSpec.
 Import ListNotations.
+Local Open Scope nat_scope.
+Local Open Scope list_scope.
 
 (* ------------------------------------------------------------------ *)
 (** * 1. kind <-> class *)
@@ -95,6 +97,8 @@ Print Assumptions trace_one_entry_per_frame.
 Definition pending (fs : list sframe) : list nat :=
   flat_map (fun f => match sf_fail f with Some p => [p] | None => [] end) fs.
 
+Arguments pending : simpl never.
+
 Definition eip_rel (e : option nat) (fs : list sframe) : Prop :=
   match pending fs with [] => e = None | [p] => e = Some p | _ => False end.
 
@@ -117,7 +121,8 @@ Definition Inv (fl : flags) (m : vmst) (s : sst) : Prop :=
 
 Lemma no_pending_nil : forall fs, no_pending fs = true -> pending fs = [].
 Proof.
-  induction fs as [|f r IH]; intros H; [reflexivity|]. cbn in *.
+  induction fs as [|f r IH]; intros H; [reflexivity|]. cbn in H.
+  unfold pending in *. cbn [flat_map].
   destruct (sf_fail f); [discriminate|]. cbn. apply IH; exact H.
 Qed.
 
@@ -197,9 +202,8 @@ Section Sim.
     - (* OCall *)
       cbn in Hok. destruct raised; [discriminate|]. destruct sf as [|f r]; [discriminate|].
       destruct (map_eq_cons_l _ _ _ _ _ Hfn) as [g [mr [-> [Hg Hmr]]]].
-      cbn in Hip. unfold Inv; cbn. repeat split.
+      cbn in Hip. unfold Inv; cbn. split; [|split; [exact Hcs|]].
       + unfold fiber_match; cbn. split; [rewrite Hg, Hmr; reflexivity | rewrite Hip; reflexivity].
-      + exact Hcs.
       + unfold eip_rel in *. exact Hr.
     - (* OReturn *)
       cbn in Hok. destruct raised; [discriminate|].
@@ -207,16 +211,14 @@ Section Sim.
       destruct (sf_fail f) eqn:Ef; [discriminate|].
       destruct (map_eq_cons_l _ _ _ _ _ Hfn) as [g [mr [-> [Hg Hmr]]]].
       destruct (map_eq_cons_l _ _ _ _ _ Hmr) as [g2 [mr2 [-> [Hg2 Hmr2]]]].
-      cbn in Hip. unfold Inv; cbn. repeat split.
+      cbn in Hip. unfold Inv; cbn. split; [|split; [exact Hcs|]].
       + unfold fiber_match; cbn. split; [rewrite Hg2, Hmr2; reflexivity | inversion Hip; reflexivity].
-      + exact Hcs.
       + unfold eip_rel in *. rewrite pending_cons, Ef in Hr. exact Hr.
     - (* OThrow *)
       cbn in Hok. destruct raised; [discriminate|]. cbn in Hok.
       apply andb_true_iff in Hok as [Hnp Hne]. destruct sf as [|f r]; [discriminate|].
-      apply no_pending_nil in Hnp. unfold Inv; cbn. repeat split.
+      apply no_pending_nil in Hnp. unfold Inv; cbn. split; [|split; [exact Hcs|]].
       + unfold fiber_match; cbn. exact (conj Hfn Hip).
-      + exact Hcs.
       + exists pc. split; [reflexivity|]. split; [|left; reflexivity].
         rewrite pending_cons in Hnp. apply app_eq_nil in Hnp as [_ Hnp].
         change (pending (mkSF (sf_fn f) (sf_pos f) (Some pc) :: r)) with ([pc] ++ pending r).
@@ -224,9 +226,8 @@ Section Sim.
     - (* OFail *)
       cbn in Hok. destruct raised; [discriminate|]. cbn in Hok.
       apply andb_true_iff in Hok as [Hnp Hne]. destruct sf as [|f r]; [discriminate|].
-      apply no_pending_nil in Hnp. unfold Inv; cbn. repeat split.
+      apply no_pending_nil in Hnp. unfold Inv; cbn. split; [|split; [exact Hcs|]].
       + unfold fiber_match; cbn. exact (conj Hfn Hip).
-      + exact Hcs.
       + exists pc. split; [reflexivity|]. split.
         * rewrite pending_cons in Hnp. apply app_eq_nil in Hnp as [_ Hnp].
           change (pending (mkSF (sf_fn f) (sf_pos f) (Some pc) :: r)) with ([pc] ++ pending r).
@@ -234,7 +235,7 @@ Section Sim.
         * destruct (fail_records fl) eqn:Efr; [left; reflexivity|].
           right. unfold eip_rel in Hr. rewrite Hnp in Hr. repeat split; assumption.
     - (* OUnwind *)
-      cbn in Hok. apply andb_true_iff in Hok as [Hok Hle2]. apply andb_true_iff in Hok as [Hra Hle1].
+      unfold op_okb in Hok. cbn [s_raised s_frames] in Hok. apply andb_true_iff in Hok as [Hok Hle2]. apply andb_true_iff in Hok as [Hra Hle1].
       subst raised. destruct Hr as [p [Htf [Hpend Hdisj]]].
       pose proof (map_eq_length _ _ _ _ Hfn) as Hlen.
       unfold mstep, sstep. cbn [fb_frames v_fib s_frames v_callers s_callers fb_error_ip].
@@ -256,7 +257,8 @@ Section Sim.
           by (apply pending_skipn_nil; eapply top_fail_pending_tl; eassumption).
         assert (Hne : skipn k (tl sf) <> []).
         { intro E. apply (f_equal (@List.length _)) in E. rewrite skipn_length in E.
-          destruct sf; cbn in *; lia. }
+          destruct sf as [|f0 r0]; [cbn [List.length] in Ek; lia|].
+          cbn [tl List.length] in *. lia. }
         unfold Inv. cbn [fb_frames v_fib s_frames v_callers s_callers s_raised fb_error_ip v_ip s_builtin].
         split; [|split; [exact Hcs|]].
         * unfold fiber_match. rewrite set_top_ip_fn, set_top_fail_fn, set_top_ip_tl, set_top_fail_tl.
@@ -286,7 +288,7 @@ Section Sim.
       cbn in Hok. destruct raised; [discriminate|]. cbn in Hok.
       destruct (top_fail sf) as [p|] eqn:Etf; [|discriminate].
       unfold Inv; cbn. split; [exact (conj Hfn Hip)|]. split; [exact Hcs|].
-      exists p. split; [exact Etf|].
+      exists p. split; [reflexivity|].
       destruct sf as [|f r]; [discriminate|]. cbn in Etf.
       unfold eip_rel in Hr. rewrite pending_cons, Etf in Hr. cbn in Hr.
       destruct (pending r) as [|q qs] eqn:Ep; [|contradiction].
@@ -294,19 +296,18 @@ Section Sim.
     - (* OFiberCall *)
       cbn in Hok. destruct raised; [discriminate|]. destruct sf as [|f r]; [discriminate|].
       destruct (map_eq_cons_l _ _ _ _ _ Hfn) as [g [mr [-> [Hg Hmr]]]].
-      cbn in Hip. unfold Inv; cbn. repeat split.
-      + constructor; [|exact Hcs]. unfold caller_rel; cbn. repeat split.
+      cbn in Hip. unfold Inv; cbn. split; [|split].
+      + unfold fiber_match; cbn. split; reflexivity.
+      + constructor; [|exact Hcs]. unfold caller_rel; cbn. split; [|split].
         * rewrite Hg, Hmr; reflexivity.
         * rewrite Hip; reflexivity.
         * exact Hr.
+      + reflexivity.
     - (* OFiberEnd *)
       cbn in Hok. destruct raised; [discriminate|]. destruct scs as [|c cs]; [discriminate|].
       inversion Hcs as [|mc c' mcs' cs' [Hc1 [Hc2 Hc3]] Hrest]; subst.
-      unfold Inv; cbn. repeat split.
-      + exact Hc1.
-      + rewrite <- !map_tl, Hc2. reflexivity.
-      + exact Hrest.
-      + exact Hc3.
+      unfold Inv; cbn. split; [|split; [exact Hrest | exact Hc3]].
+      unfold fiber_match. split; [exact Hc1|]. rewrite <- !map_tl, Hc2. reflexivity.
   Qed.
 
   Lemma sim_run : forall ops m s,
@@ -327,7 +328,7 @@ Section Sim.
 
   Lemma inv_init : forall fd, Inv fl (init_vm fd) (sinit fd).
   Proof.
-    intros fd. unfold Inv; cbn. repeat split; constructor.
+    intros fd. unfold Inv; cbn. split; [split; reflexivity|]. split; [constructor | reflexivity].
   Qed.
 
   Lemma entries_tail : forall (mr : list frame) (r : list sframe),
